@@ -35,7 +35,13 @@ template<class S,class Tg> void c09_subsets_unary(hx::Rec<S>& R){ COMMON
   hx::eqm(R,"inverse.val", X.inverse().coeffs(), X.inverse(J).coeffs());
   hx::eqm(R,"log.val", X.log().coeffs(), X.log(J).coeffs());
   hx::eqm(R,"exp.val", t.exp().coeffs(), t.exp(J).coeffs());
+}
+// act() with every subset of its two optional Jacobians (its own entry: log(J) of the groups with a numerically inverted
+// Jacobian makes the paths of the entry above very expensive)
+template<class S,class Tg> void c09_subsets_act(hx::Rec<S>& R){ COMMON
+  G X=Tg::make(R,"a",0); Mat<S,P,1> p=vecn<hx::Rec<S>,P>(R,"p",1);
   Mat<S,P,D> Jm,Jm1; Mat<S,P,P> Jp,Jp1;
+  { int pc=0; for(int i=0;i<P;i++){ for(int j=0;j<D;j++){ Jm(i,j)=R.var("apoison"+std::to_string(pc++),4000.0+pc); Jm1(i,j)=R.var("apoison"+std::to_string(pc++),4000.0+pc); } for(int j=0;j<P;j++){ Jp(i,j)=R.var("apoison"+std::to_string(pc++),4000.0+pc); Jp1(i,j)=R.var("apoison"+std::to_string(pc++),4000.0+pc); } } }   // an unwritten output keeps its poison symbol
   Mat<S,P,1> q0=X.act(p,Jm,Jp);
   hx::eqm(R,"act.val_none", X.act(p), q0); hx::eqm(R,"act.val_a", X.act(p,Jm1), q0); hx::eqm(R,"act.Ja_alone", Jm1, Jm);
   hx::eqm(R,"act.val_b", X.act(p,N_,Jp1), q0); hx::eqm(R,"act.Jb_alone", Jp1, Jp);
@@ -91,6 +97,7 @@ ENTRY_T(c09_sub_rminus, TAG)
 ENTRY_T(c09_sub_lminus, TAG)
 ENTRY_T(c09_sub_minus, TAG)
 ENTRY_T(c09_subsets_unary, TAG)
+ENTRY_T(c09_subsets_act, TAG)
 ENTRY_T(c09_blk_compose, TAG)
 ENTRY_T(c09_blk_between, TAG)
 ENTRY_T(c09_blk_rplus, TAG)
